@@ -707,6 +707,8 @@ class IH5Group(IH5InnerNode):
         if self._abs_path(source) == self._abs_path(dest):
             self[source]  # must exist, but there is nothing to do (just like in h5py)
             return
+        if self._abs_path(source) == "/":
+            raise ValueError("Cannot move the root group!")  # (copy would work, delete not)
         self.copy(source, dest)
         del self[source]
 
